@@ -883,9 +883,10 @@ def circumstances(chk, work, uwg):
 
 
 def run(chk):
-    chk.proof(MODULE, THEOREMS)
+    from props import generate
+    chk.proof(MODULE, THEOREMS + generate.THEOREMS, extra_modules=[generate.MODULE])
     if chk.tier == 'thorough':
-        chk.leanchecker([MODULE])
+        chk.leanchecker([MODULE, generate.MODULE])
     uwg = U.uwg_mod()
     work = chk.work()
     rng = chk.rng
@@ -970,3 +971,5 @@ def run(chk):
                            'parameters) on generated histories')
     chk.notes.append('caller-supplied custom BEMDef objects are deep-copied into the library by generate(), so a '
                      'simulation no longer alters them')
+    # composition E: generate() as one Lean function, tied exactly to the real generate()
+    generate.run_generate(chk)
